@@ -12,7 +12,7 @@
 #include <xtl/xproxy_wrapper.hpp>
 #include <xtl/xsequence.hpp>
 
-#include "payload.hpp"
+#include "c07_payload.hpp"
 #include "report.hpp"
 
 #include <array>
@@ -86,6 +86,7 @@ struct KBase
     template <class W, class P> static void assign_vw(W&, int, bool, P*) {}
     template <class PT> static decltype(auto) ptr_prim(PT& p) { return *p; }
     template <class W> static W& copy_src(W& w) { return w; }
+    template <class P> struct in_design : std::true_type {};   // payload types the design enumerates for this kind
 };
 
 template <class P> struct copyable : std::is_copy_constructible<P> {};
@@ -238,6 +239,7 @@ struct K_opt : KBase
 struct K_optf : KBase
 {
     static const char* name() { return "optional(v&,FLAG)"; }
+    template <class P> struct in_design : std::is_same<P, int> {};
     template <class P, class Cat> struct caps
     {
         static const bool constructible = std::is_same<P, int>::value;
@@ -323,6 +325,7 @@ struct K_mask : KBase
 struct K_maskf : KBase
 {
     static const char* name() { return "masked_value(v&,FLAG)"; }
+    template <class P> struct in_design : std::is_same<P, int> {};
     template <class P, class Cat> struct caps
     {
         static const bool constructible = std::is_same<P, int>::value;
@@ -354,6 +357,7 @@ template <bool IMAG>
 struct K_cplx : KBase
 {
     static const char* name() { return IMAG ? "xcomplex<T&,closure>(imag)" : "xcomplex<closure,T&>(real)"; }
+    template <class P> struct in_design : copyable<P> {};   // xcomplex is not used with move-only payloads
     template <class P, class Cat> struct caps
     {
         static const bool constructible = copyable<P>::value;   // move-only payloads are not used with xcomplex
@@ -709,7 +713,6 @@ struct Run
         cur_op = op_name[op];
         int v = 100 + 10 * int(i);
         ++g_ops;
-        mix(op);
         reg.reset_events();
         bool no_copy_op = false;     // the operation must not construct a payload from the originals
         bool no_special_op = false;  // the operation must not touch the payload at all (alias wrappers)
@@ -933,6 +936,7 @@ static void reg_group(std::vector<GroupEntry>& v)
 template <class K, class P>
 static void reg_cats(std::vector<GroupEntry>& v)
 {
+    if (!K::template in_design<P>::value) return;
     reg_group<K, PRV, P>(v); reg_group<K, LV, P>(v); reg_group<K, CLV, P>(v);
     reg_group<K, XV, P>(v); reg_group<K, CXV, P>(v); reg_group<K, XVF, P>(v);
 }
